@@ -20,7 +20,8 @@ def run(cmd, **kw):
 
 
 run(["git", "-C", "/repo", "worktree", "add", "-q", wt, "HEAD"])
-meta = {"seed": sid, "breaks_property": props[0], "checks_run": {}, "time": time.strftime("%Y-%m-%d %H:%M:%S")}
+meta = {"seed": sid, "breaks_property": props[0], "checks_run": {}, "time": time.strftime("%Y-%m-%d %H:%M:%S"),
+        "repo_head": run(["git", "-C", "/repo", "rev-parse", "--short", "HEAD"]).stdout.strip()}
 try:
     env0 = dict(os.environ, PYTHONPATH=os.path.join(wt, "src"), PYTHONDONTWRITEBYTECODE="1")
     sys.path.insert(0, os.path.join(VERIF, "tools"))
@@ -51,15 +52,16 @@ try:
         r = run([os.path.join(VERIF, "check"), p], env=dict(os.environ, VERIF_REPO=wt), cwd=VERIF)
         viol = [l for l in r.stdout.split("\n") if l.startswith("VIOLATION")]
         last = r.stdout.strip().split("\n")[-1] if r.stdout.strip() else r.stderr[-300:]
-        detail = ""
+        detail, kind = "", ""
         if viol:
             rp = viol[0].split("replay=")[1].split()[0]
             try:
                 j = json.load(open(rp))
                 detail = (j.get("why") or "; ".join(j.get("no_longer_checks", [])))[:600]
+                kind = "concrete failing input" if j.get("kind") == "violation" else "tie broken, no-failing-input-found"
             except Exception as e:  # noqa
                 detail = str(e)
-        meta["checks_run"][p] = {"exit": r.returncode, "violation_line": viol[0] if viol else None, "what": detail, "summary": last[:300], "wall_s": round(time.time() - t0, 1)}
+        meta["checks_run"][p] = {"exit": r.returncode, "violation_line": viol[0] if viol else None, "what": detail, "kind": kind, "summary": last[:300], "wall_s": round(time.time() - t0, 1)}
         print(p, "exit", r.returncode, viol[0] if viol else "NO VIOLATION", "|", detail[:200])
     meta["caught_by"] = [p for p, v in meta["checks_run"].items() if v["exit"] == 1]
     out = os.path.join(VERIF, "seeded", sid)
